@@ -18,9 +18,11 @@ THEOREMS = [
     "Nix.C19.C19_monotone_from_open",
     "Nix.C19.C19_auto_off",
     "Nix.C19.C19_listed_setters_touch_self",
+    "Nix.C19.C19_listed_refusal_unstamped",
     "Nix.C19.C19_auto_on_local",
     "Nix.C19.C19_only_target",
     "Nix.C19.C19_refused_unchanged",
+    "Nix.C19.C19_listed_refused_unchanged",
     "Nix.C19.C19_force_roundtrip",
 ]
 ASSUMPTIONS = [
@@ -1062,6 +1064,34 @@ def matrix_histories(rng, dist=None):
     return out
 
 
+BOUNDARY_SECONDS = [0, 1, 59, 60, 3599, 3600, 86399, 86400, 951782399, 951782400, 951868799, 951868800,
+                    2147483647, 2147483648, 4102444800 - 86400, 4102444800 - 1]
+
+
+def force_histories(rng, dist=None):
+    """every entity kind that has the force methods x both stamps x the boundary seconds of 1970..2100 (first and last
+    second of the range, of a minute, an hour, a day, 29 February 2000, 2**31) and random ones, through fresh and kept
+    handles, with a close / re-open after each round: -> list of (label, ops)"""
+    out = []
+    for kind, e in [("file", 0)] + sorted(SCENE_INDEX.items()):
+        if kind == "feature":
+            continue
+        ops = scene_ops(rng.randrange(0, T2100), rng.random() < 0.5)
+        secs = BOUNDARY_SECONDS + [rng.randrange(0, T2100) for _ in range(3)]
+        rng.shuffle(secs)
+        for k, t in enumerate(secs):
+            which = ["force_created", "force_updated"] if k % 2 == 0 else ["force_updated", "force_created"]
+            ops.append([which[0], e, t, {"h": rng.choice([0, 1, 2])}])
+            ops.append([which[1], e, secs[(k + 5) % len(secs)], {"h": rng.choice([0, 1, 2])}])
+            if k % 4 == 3:
+                ops.append(["reopen", rng.random() < 0.5])
+        ops.append(["reopen", True])
+        if dist is not None:
+            dist["force_boundary.%s" % kind] = len(secs) * 2
+        out.append(("force:" + kind, ops))
+    return out
+
+
 # ---------------------------------------------------------------------------------------
 # correspondence
 
@@ -1175,6 +1205,10 @@ def correspondence(ctx):
         mats = rng.sample(mats, min(len(mats), 12))
     for label, h in mats:
         histories.append(("matrix:" + label, h))
+    fh = force_histories(rng, opdist)
+    if ctx.quick():
+        fh = rng.sample(fh, 3)
+    histories += fh
     for k in range(ctx.budget(14, 150)):
         g = Gen(rng)
         histories.append(("random", g.history(rng.choice([40, 80, 120]))))
@@ -1394,6 +1428,7 @@ def oracle(ctx, broken, hints):
         elif isinstance(h, list) and h and h[0] == "time_to_str" and isinstance(h[1], int) and 0 <= h[1] < T2100:
             pass
     hist += fixed_histories()
+    hist += [h for _, h in force_histories(rng)]
     hist += [h for _, h in matrix_histories(rng)]
     g = Gen(rng)
     hist.append(g.sweep())
